@@ -156,3 +156,30 @@ async fn validate_is_total_on_hostile_fields() {
         if let Err(p) = validate_guarded(tx, &bc) { witness(format!("Transaction::validate panicked ({}) on {}", p, desc)); }
     }
 }
+
+/// C01: every value-carrying input must belong to the key whose signature authorises the transaction
+#[tokio::test]
+#[serial_test::serial]
+async fn foreign_owned_input_is_rejected() {
+    let mut t = TestManager::default();
+    t.initialize(10, 1_000_000_000).await;
+    let bc = t.blockchain_lock.read().await;
+    // a real unspent output of the node's wallet (the victim)
+    let victim_key = bc.utxoset.iter().find(|(k, v)| **v && Slip::parse_slip_from_utxokey(k).map(|s| s.amount > 0 && s.slip_type == SlipType::Normal).unwrap_or(false)).map(|(k, _)| *k).expect("an unspent output");
+    let victim_slip = Slip::parse_slip_from_utxokey(&victim_key).unwrap();
+    let (attacker_pk, attacker_sk) = generate_keys();
+    assert!(victim_slip.public_key != attacker_pk);
+    let mut tx = Transaction::default();
+    let mut own = Slip::default(); own.public_key = attacker_pk; own.amount = 0;              // from[0]: zero-valued slip of the attacker (needs no existence)
+    tx.from.push(own);
+    tx.from.push(victim_slip.clone());                                                          // from[1]: somebody else's money
+    let mut out = Slip::default(); out.public_key = attacker_pk; out.amount = victim_slip.amount;
+    tx.to.push(out);
+    tx.sign(&attacker_sk);
+    tx.generate(&attacker_pk, 0, 0);
+    let verdict = tx.validate(&bc.utxoset, &bc, true);
+    if verdict {
+        witness(format!("transaction signed only by key {:?}… spends an unspent output of {} nolan owned by a different key {:?}… and Transaction::validate(.., validate_against_utxo = true) returned true",
+            &attacker_pk[..4], victim_slip.amount, &victim_slip.public_key[..4]));
+    }
+}
